@@ -15,6 +15,7 @@ ASSUME = [
     "bases: the n=2 universe of C07 (all allocations incl. teams, all edge sets, all priority vectors over {500,700}, leave, daily limit) plus its project-ALAP variants; thorough adds the n=3 slice",
     "intruder: priority 1, effort {1/2, 1, 3} slots, on r1 or r2, declared first / between / last, free or pinned to day 2 10:00; plus special intruders (depending on a base task, task-level ALAP without deadline, milestone, 40 h effort) on one- and two-scenario variants of the unconstrained bases; all scenarios are compared",
     "precondition (checked, else skipped and counted): the project end is not extended in either run",
+    "'wide9' family: bases = the two ten-task projects of mc/props/wide.py with every single toggle, alone and with reversed declaration order (thorough: every subset of <= 2 of the 24 toggles); intruder = priority 1, 30 min or 10 h, on each of r1-r4, declared first or last; pairs where a task is unscheduled or ends after the declared 8-week window in either run are skipped and counted",
     "in backward (ALAP) projects intruders that depend on a base task are not generated: there the added task is a successor whose start is its predecessor's deadline, which C04 requires to be honoured",
 ]
 
@@ -80,6 +81,9 @@ def i_long(item):
 
 
 def specs(item):
+    if item.get("kind") == "wide9":
+        from mc.props import wide
+        return wide.specs9(item)
     b = item["base"]
     base = c07.to_spec(b)
     base["alap"] = b["alap"]
@@ -113,7 +117,19 @@ def evaluate(item):
         return common.errored(item, o1 if o1.get("error") else o2)
     r = common.base_result(item, o2)
     r["tr"] += o1.get("placements", 0) + o1.get("bookings", 0)
-    if common.extended(o1, base) or common.extended(o2, withi):
+    wide9 = item.get("kind") == "wide9"
+    if wide9:
+        # larger projects: the scheduler may lengthen the window on its own (both runs may differ in that); what matters
+        # is that everything fits the DECLARED horizon in both runs
+        from mc.ref.calendar import parse_date
+        from datetime import timedelta
+        declared = parse_date(base.get("start", "2025-01-06")) + timedelta(weeks=8)
+        late = [t["id"] for o in (o1, o2) for t in o["tasks"] for sc in range(o["nsc"])
+                if not t["sched"][sc] or (t["end"][sc] and t["end"][sc] > declared)]
+        if late:
+            r["skip"] = True
+            return r
+    elif common.extended(o1, base) or common.extended(o2, withi):
         r["skip"] = True
         return r
     v = []
@@ -127,6 +143,10 @@ def evaluate(item):
             if a != b:
                 v.append(("disturbed", f"{t['id']} (scenario {sc}): alone {a}, with lowest-priority task zz {b}"))
     zz = t2["zz"]
+    if wide9:
+        r["v"] = common.dedup(v)
+        r["nt"] = True   # every resource of the wide bases carries base work
+        return r
     # non-trivial: the intruder actually competes (shares a resource with a base task and got work or failed)
     r["nt"] = any(item["in"]["res"] in c07.ALLOCS[a] for a in item["base"]["al"])
     if i_long(item):
@@ -165,6 +185,8 @@ def sample(item):
 def run(ctx):
     st = Stats()
     explore(ctx, universe(ctx.tier), "mc.props.c09:evaluate", st, payload=payload, sample_of=sample, batch=10000)
+    from mc.props import wide
+    explore(ctx, wide.universe9(ctx.tier), "mc.props.c09:evaluate", st, payload=payload, sample_of=sample)
     common.vacuity_guard(ctx, st)
     cov = st.coverage(
         "all (base, intruder) pairs of the stated base universe x intruder alphabet, two real scheduler runs per pair; states = distinct "
